@@ -403,6 +403,13 @@ def values(run, F, PV, C, E):
         got = {_strip(x) for x in return_values(A, m_, E, PV)}
         run.check("R3", got == {_strip(want)}, label, key=f"HSMCertificateElement.{meth}|expr", where=m_.loc(),
                   message=f"{msg} (returns {sorted(got)[:2]})")
+        # ... for every element alike: any element may certify another one (chains of depth four), so the accessors are unconditional
+        gm_ = A.cfg(m_, E)
+        conds_ = [n for n in gm_.nodes if n.kind == "cond"]
+        raises_ = [n for n in A.own_nodes(m_) if isinstance(n, ast.Raise)]
+        run.check("R3", not conds_ and not raises_, f"{meth} is unconditional", key=f"HSMCertificateElement.{meth}|unconditional", where=m_.loc(),
+                  message=f"HSMCertificateElement.{meth} depends on {[norm(c.ast)[:50] for c in conds_][:2]} / raises: an element for which it fails cannot be "
+                          "validated or act as a certifier although its signature chain is sound")
     # extractors vs docs
     d = doc(run, "attestation.md")
     m = re.search(r"def extract\(element\):(.*?)```", d.text, re.S)
